@@ -1,0 +1,35 @@
+//go:build verif
+
+// Contracts for package loggers (comment-only; read by /verif/govc).
+
+package loggers
+
+// The Logger interface as DLog.Raw uses it. ufb_colours(id(l)) is the
+// (constant per implementation) answer of l.SupportsColors().
+//@ iface Logger.SupportsColors
+//@   assigns nothing
+//@   ensures [constant-per-logger] result == ufb_colours(id(arg0))
+//@ iface Logger.Raw
+//@   assigns nothing
+//@ iface Logger.RawWithColors
+//@   requires [colours-supported] ufb_colours(id(arg0))
+//@   requires [lossless] ufs_plain(arg3) == arg2
+//@   assigns nothing
+
+//@ type fout invariant [parts] self.file != nil && self.stdout != nil
+//@ type file invariant [queue] self.bufferCh != nil
+
+// The file logger does not support colours: SupportsColors is the constant
+// false, so DLog never calls RawWithColors on it (interface contract above).
+//@ func (*file).RawWithColors
+//@   unreachable
+//@ func (*file).LogWithColors
+//@   unreachable
+//@ func (*file).Raw
+//@   assigns *f.bufferCh
+//@ func (*stdout).log
+//@   assigns s.mutex, *s.pauseCh, *s.resumeCh
+//@ func (*stdout).Raw
+//@   assigns s.mutex, *s.pauseCh, *s.resumeCh
+//@ func (*stdout).RawWithColors
+//@   assigns s.mutex, *s.pauseCh, *s.resumeCh
